@@ -257,8 +257,9 @@ def corruptions(raw, rejected):
         return None
 
     out = []
+    reg = lambda o: path_kind(o["case"]) in ("bent", "straight", "bent+collinear")     # a regular path
     tube = lambda o: (o["k"] == "ext" and o["case"]["gen"] == "circle" and len(o["case"]["path"]) >= 3 and o["tris"]
-                      and o["case"]["sides"] >= 3 and not o["case"]["radii"] and o["case"]["rad"] > 0)
+                      and o["case"]["sides"] >= 3 and not o["case"]["radii"] and o["case"]["rad"] > 0 and reg(o))
     a = first(tube)
     if a:
         a["tris"][0] = [a["tris"][0][0], a["tris"][0][2], a["tris"][0][1]]
@@ -292,7 +293,7 @@ def corruptions(raw, rejected):
         n = 2 * a["case"]["sides"]
         a["tris"] = a["tris"][:-n] + a["tris"][:n]          # the closing strip replaced by a copy of the first
         out.append((a, "X06.Closed"))
-    a = first(lambda o: o["k"] == "ext" and o["case"]["gen"] == "shape" and len(o["case"]["path"]) >= 3 and o["tris"])
+    a = first(lambda o: o["k"] == "ext" and o["case"]["gen"] == "shape" and len(o["case"]["path"]) >= 3 and o["tris"] and reg(o))
     if a:
         m = len(a["case"]["stencil"])
         for i in range(m, 2 * m):                           # ring 1 pushed along +x+y+z: off its plane
@@ -302,7 +303,7 @@ def corruptions(raw, rejected):
     if a:
         a["pos"][-1] = [a["pos"][-1][0] + 5, a["pos"][-1][1], a["pos"][-1][2]]
         out.append((a, "X06.Screw"))
-    a = first(lambda o: o["k"] == "ext" and o["case"]["gen"] == "line" and o["tris"] and o["case"]["rad"] > 0)
+    a = first(lambda o: o["k"] == "ext" and o["case"]["gen"] == "line" and o["tris"] and o["case"]["rad"] > 0 and reg(o))
     if a:
         a["pos"][1] = [a["pos"][1][0] + 5, a["pos"][1][1] + 5, a["pos"][1][2] + 5]
         out.append((a, "X06.Ribbon"))
@@ -363,7 +364,7 @@ def run(ctx):
         raise core.Infra("vacuous run: %s" % stats)
     ctx.nontrivial = stats["regular"] + sum(1 for c in cases if c["kind"] == "rep")
     report(ctx, vh, cases, raw, findings)
-    if ctx.tier != "quick":
+    if ctx.tier != "quick" or os.environ.get("VERIF_SELFTEST") == "1":
         selftest(ctx, raw, set(f["line"] for f in findings))
     gens = {}
     for c in cases:
